@@ -121,6 +121,28 @@ func genRetryManual(r *Rng, prop string) *Scenario {
 			sc.Script = append(sc.Script, o)
 		}
 	}
+	if prop == "C17" && r.chance(0.08) {
+		// aimed: the application disconnects the retrying client, later gives it
+		// another BaseClient and connects that: the registered handler was never
+		// taken away, a message arriving on that connection belongs to it
+		tD := r.between(1000, period-500)
+		q := byte(r.IntN(2))
+		in := &Pkt{Type: TPublish, Topic: "a/x", QoS: q, Pay: "inagain"}
+		if q > 0 {
+			in.ID = 300
+		}
+		sc.Ops = []Op{
+			{AtUs: 0, Actor: 2, Kind: "handle", Handler: 1},
+			{AtUs: 10, Actor: 0, Kind: "setclient"},
+			{AtUs: 10, Actor: 0, Kind: "rconnect"},
+			{AtUs: tD, Actor: 3, Kind: "disconnect"},
+			{AtUs: period, Actor: 0, Kind: "setclient"},
+			{AtUs: period + r.between(0, 200), Actor: 0, Kind: "rconnect"},
+		}
+		sc.Faults = nil
+		sc.Script = []Out{{Conn: 2, AfterConnack: true, Glue: r.chance(0.5), DelayUs: r.between(0, 100), Kind: "pkt", Pkt: in}}
+		total = 2 * period
+	}
 	sc.HorizonUs = total + 2000
 	sc.EndUs = sc.HorizonUs + 40000 + 10*cfg.ResponseTimeoutUs
 	return sc
